@@ -124,7 +124,7 @@ func runC33(c *an.Ctx) {
 			c.Add(ok, "R3", fname+":relay-copy", s, "relayed copy within QueryResponseSizeLimit (same value as sent: "+buf+")", "edge dominance")
 		case "(*Serf).handleQuery":
 			c.Exemption("(*Serf).handleQuery SendToAddress", "direct ack carries no payload; the property's response clause is about Respond")
-			c.Add(strings.HasPrefix(buf, "encodeMessage(c:5,&local:ack"), "R3", fname+":ack-exempt", s, "exempt site is the ack built in handleQuery (buffer "+buf+")", "named exemption")
+			c.Add(strings.HasPrefix(buf, "encodeMessage(c:5,&local:messageQueryResponse"), "R3", fname+":ack-exempt", s, "exempt site is the ack built in handleQuery (buffer "+buf+")", "named exemption")
 		case "(*delegate).NotifyMsg":
 			c.Exemption("(*delegate).NotifyMsg SendToAddress", "relay forwarder re-sends bytes that arrived in one packet; it builds nothing")
 			c.Add(strings.HasPrefix(buf, "make:slice("), "R3", fname+":forwarder-exempt", s, "exempt site forwards the remainder of the received buffer ("+buf+")", "named exemption")
